@@ -354,6 +354,9 @@ func (w *World) appOp(op string) {
 				inst.PlainDel(txn, "d", 0, []byte("a"), nil)
 				staged["d/a"] = appVer{del: true, at: w.hookLabel()}
 			}
+		case "put-empty-c":
+			// a new key with an empty value (docs/schema.md recommends empty values for set-like data)
+			put(txn, "d", "c", "")
 		case "newdbi":
 			put(txn, "n", fmt.Sprintf("nk%d", w.commits), "nv")
 		case "emptytxn":
